@@ -131,23 +131,24 @@ func (r *renderer) stmt(raw json.RawMessage) string {
 		return "local " + asString(n[1]) + ";"
 	case "if":
 		s := "if ( " + r.expr(n[1]) + " ) " + r.block(n[2])
-		if len(n) > 3 {
-			var probe interface{}
-			_ = json.Unmarshal(n[3], &probe)
-			if l, ok := probe.([]interface{}); ok {
-				// an else block; a block holding a single "if" is spelled "else if"
-				if len(l) == 1 {
-					inner := asNode(asList(n[3])[0])
-					if asString(inner[0]) == "if" && r.elseIf {
-						return s + " else " + r.stmt(asList(n[3])[0])
-					}
+		var hasElse bool
+		if len(n) > 4 {
+			_ = json.Unmarshal(n[4], &hasElse)
+		}
+		if hasElse {
+			// an else block; a block holding a single "if" may be spelled "else if"
+			els := asList(n[3])
+			if len(els) == 1 && r.elseIf {
+				inner := asNode(els[0])
+				if asString(inner[0]) == "if" {
+					return s + " else " + r.stmt(els[0])
 				}
-				s += " else " + r.block(n[3])
 			}
+			s += " else " + r.block(n[3])
 		}
 		return s
-	case "while":
-		kw := "while"
+	case "while", "for":
+		kw := asString(n[0])
 		if r.forSpelling {
 			kw = "for"
 		}
@@ -164,17 +165,17 @@ func (r *renderer) stmt(raw json.RawMessage) string {
 		sb.WriteString("switch ( " + r.expr(n[1]) + " ) { ")
 		for _, c := range asList(n[2]) {
 			cn := asList(c)
-			var probe interface{}
-			_ = json.Unmarshal(cn[0], &probe)
-			if s, ok := probe.(string); ok && s == "default" {
-				sb.WriteString("default " + r.block(cn[1]) + " ")
+			var isDefault bool
+			_ = json.Unmarshal(cn[0], &isDefault)
+			if isDefault {
+				sb.WriteString("default " + r.block(cn[2]) + " ")
 				continue
 			}
 			es := []string{}
-			for _, e := range asList(cn[0]) {
+			for _, e := range asList(cn[1]) {
 				es = append(es, r.expr(e))
 			}
-			sb.WriteString("case " + strings.Join(es, ", ") + " " + r.block(cn[1]) + " ")
+			sb.WriteString("case " + strings.Join(es, ", ") + " " + r.block(cn[2]) + " ")
 		}
 		sb.WriteString("}")
 		return sb.String()
